@@ -15,7 +15,11 @@ from mc import core
 
 MODES = "datx"  # disabled, autonomous, teleop, test
 MODE_NT = {"d": "disabled", "a": "auto", "t": "teleop", "x": "test"}
-DS_WORD = {"d": (False, False, False), "a": (True, True, False), "t": (True, False, False), "x": (True, False, True)}
+DS_WORD = {"d": (False, False, False), "a": (True, True, False), "t": (True, False, False), "x": (True, False, True),
+           # disabled while the driver station still has autonomous / test selected (what a real DS sends when
+           # the operator presses "disable" in those modes)
+           "e": (False, True, False), "f": (False, False, True)}
+EFFECTIVE = {"d": "d", "a": "a", "t": "t", "x": "x", "e": "d", "f": "d"}
 BATON_TIMEOUT = 60.0
 
 
@@ -98,8 +102,12 @@ def install():
 # ------------------------------------------------------------------------------------------ layouts
 
 
-def comp(name, on="derived", hooks=True, fb=True, inherit=None, extra_src="", fb_ann="int", fb_name="get_x", fb_key=None):
-    return dict(name=name, on=on, hooks=hooks, fb=fb, inherit=inherit, extra_src=extra_src, fb_ann=fb_ann, fb_name=fb_name, fb_key=fb_key)
+def comp(name, on="derived", hooks=True, fb=True, inherit=None, extra_src="", fb_ann="int", fb_name="get_x", fb_key=None, same_class_as=None):
+    return dict(name=name, on=on, hooks=hooks, fb=fb, inherit=inherit, extra_src=extra_src, fb_ann=fb_ann, fb_name=fb_name, fb_key=fb_key, same_class_as=same_class_as)
+
+
+def _cls_of(c):
+    return "K_" + (c.get("same_class_as") or c["name"])
 
 
 def layout(name, comps, auto=True, teleop_in_auto=False, p_us=20000, robot_base=False, robot_fb=True, robot_extra="", modes=("plain", "other")):
@@ -117,7 +125,11 @@ def _comp_src(c):
     nm = c["name"]
     cls = "K_" + nm
     parent = ("K_" + c["inherit"]) if c["inherit"] else ""
-    src = f"class {cls}({parent}):\n    SITE = {nm!r}\n"
+    if c.get("same_class_as"):
+        return ""  # a second instance of another component's class: no class of its own
+    # the site name is the component's *instance* name (MagicRobot names the injected logger after it), so two
+    # components of the very same class are told apart
+    src = f"class {cls}({parent}):\n    SITE = property(lambda self: self.logger.name)\n"
     if not c["inherit"]:
         if c["hooks"]:
             src += "    def setup(self):\n        _cb(self.SITE + '.setup', self)\n"
@@ -151,15 +163,15 @@ def robot_source(lay):
         src += "class RBase(magicbot.MagicRobot):\n"
         for c in lay["comps"]:
             if c["on"] == "base":
-                src += f"    {c['name']}: K_{c['name']}\n"
+                src += f"    {c['name']}: {_cls_of(c)}\n"
         src += body + "\nclass R(RBase):\n" + cfg
         for c in lay["comps"]:
             if c["on"] != "base":
-                src += f"    {c['name']}: K_{c['name']}\n"
+                src += f"    {c['name']}: {_cls_of(c)}\n"
     else:
         src += "class R(magicbot.MagicRobot):\n" + cfg
         for c in lay["comps"]:
-            src += f"    {c['name']}: K_{c['name']}\n"
+            src += f"    {c['name']}: {_cls_of(c)}\n"
         src += body
     return src
 
@@ -293,7 +305,7 @@ def run_life(lay, history, fms=False, faults=None, hooks=(), fbvalue=None, obser
         inst = ntcore.NetworkTableInstance.getDefault()
         ev = next_event()
         k = 0
-        life.steps.append(dict(mode=history[0], start=0, ev=ev[0], t=ev[1] if ev[0] == "wait" else None))
+        life.steps.append(dict(mode=EFFECTIVE[history[0]], raw=history[0], start=0, ev=ev[0], t=ev[1] if ev[0] == "wait" else None))
         while ev[0] == "wait":
             alarm = hs.getNextNotifierTimeout()
             life.alarms.append(alarm)
@@ -308,7 +320,7 @@ def run_life(lay, history, fms=False, faults=None, hooks=(), fbvalue=None, obser
             m = history[k]
             set_ds(m, fms)
             now = wpilib.RobotController.getFPGATime()
-            life.steps.append(dict(mode=m, start=len(_G.log)))
+            life.steps.append(dict(mode=EFFECTIVE[m], raw=m, start=len(_G.log)))
             extra = step_plan[k] if step_plan else 0
             if alarm > now:
                 hs.stepTimingAsync(alarm - now + extra)
@@ -384,9 +396,14 @@ def loop_model(lay, history, end=True):
     """Expected callback sites: list of steps, each a list of site names.  Feedback getters appear as the
     set element ('fb', frozenset(sites)) because their relative order is unspecified."""
     comps = comp_order(lay)
-    hooked = [c["name"] for c in lay["comps"] if c["hooks"] or c["inherit"]]
+    byname = {c["name"]: c for c in lay["comps"]}
+    for c in lay["comps"]:
+        if c.get("same_class_as"):
+            o = byname[c["same_class_as"]]
+            c = dict(c)
+    hooked = [c["name"] for c in lay["comps"] if (byname[c.get("same_class_as") or c["name"]]["hooks"]) or c["inherit"]]
     hooked = [n for n in comps if n in hooked]
-    fbs = [c["name"] + ".fb" for c in lay["comps"] if (c["fb"] or c["inherit"])]
+    fbs = [c["name"] + ".fb" for c in lay["comps"] if (byname[c.get("same_class_as") or c["name"]]["fb"] or c["inherit"])]
     if lay["robot_fb"]:
         fbs.append("robot.fb")
     fb = [("fb", frozenset(fbs))] if fbs else []
@@ -421,6 +438,7 @@ def loop_model(lay, history, end=True):
         return ["testInit"]
 
     steps = []
+    history = [EFFECTIVE[m] for m in history]
     cur = history[0]
     steps.append(["createObjects"] + [c + ".setup" for c in hooked] + enter(cur) + iteration(cur))
     for m in history[1:]:
